@@ -980,17 +980,24 @@ def _cross_module_moves(forest, inv):
             reachable = set(used_direct.values()) | used_attr
             volatile = set(ref_fns) | set(ref_cs) | set(b_new_f) | set(b_new_c)
             pairs = []
+
+            def admissible(m, n):
+                # a reference name that module A still binds by an import can only be the definition that import names
+                ai = a_imports.get(m)
+                if ai is None:
+                    return True
+                return ai[0] == 'from' and (ai[2] or '').split('.')[-1] == b_mod and ai[3] == n
             for m in ref_fns:
                 a = [_blank(x[0], volatile | set(minv.get('params', {}).get(m, ()))) for x in minv['locals'][m]]
                 for n, fn in b_new_f.items():
-                    if n not in reachable:
+                    if n not in reachable or not admissible(m, n):
                         continue
                     b = [_blank(_skeleton(st, _fn_locals(fn) | _params(fn))[0], volatile) for st in _flat_statements(fn)]
                     pairs.append(((1.0 if n == m else _sim(a, b)) + (0.3 if n == m else 0), m, n, 'f'))     # the copy is exact whatever it is called; similarity only chooses the name
             for m in ref_cs:
                 a = _blank(minv['values'][m], volatile)
                 for n, st in b_new_c.items():
-                    if n not in reachable:
+                    if n not in reachable or not admissible(m, n):
                         continue
                     b = _blank(_skeleton(st.value, ())[0], volatile)
                     import difflib
@@ -1076,7 +1083,10 @@ def _cross_module_moves(forest, inv):
                     if isinstance(stx, ast.ImportFrom):
                         stx.names = [al for al in stx.names if not ((al.asname or al.name) in local_names)] or stx.names
                 pos = next((i for i, stx in enumerate(at.body) if isinstance(stx, (ast.FunctionDef, ast.ClassDef))), len(at.body))
-                at.body.insert(pos, cp)
+                already = any(getattr(stx, 'name', None) == m or (isinstance(stx, ast.Assign) and any(isinstance(t, ast.Name) and t.id == m for t in stx.targets))
+                              for stx in at.body)
+                if not already:     # (it may have come along as a dependency of a definition restored before)
+                    at.body.insert(pos, cp)
                 for dn, dnode in deps.items():
                     if any(getattr(stx, 'name', None) == dn or (isinstance(stx, ast.Assign) and any(isinstance(t, ast.Name) and t.id == dn for t in stx.targets)) for stx in at.body):
                         continue
